@@ -456,7 +456,11 @@ def run_check(pid, tier, seed, replay=None):
         if rc_c != 0:
             broken.append("coqchk rejects the compiled development: " + log_c[-600:])
         elif chk["axioms"] not in ("<none>",):
-            broken.append("coqchk reports axioms: " + chk["axioms"][:300])
+            # coqchk lists the axioms of every loaded library; only standard-library axioms named in ALLOWED_AXIOMS may appear
+            names = [a.strip() for a in chk["axioms"].split("\n") if a.strip()]
+            badc = [a for a in names if a not in ALLOWED_AXIOMS and a.split(".", 1)[-1] not in ALLOWED_AXIOMS]
+            if badc or chk["axioms"] == "?":
+                broken.append("coqchk reports axioms: " + chk["axioms"][:300])
     if forb:
         broken.append("forbidden construct in development: " + "; ".join(forb[:5]))
     if not g["ok"]:
